@@ -98,7 +98,9 @@ MonEvent(M, p, k) ==
          ELSE [M EXCEPT !.ps[p].open = FALSE, !.ps[p].mustClose = FALSE, !.ps[p].nclosed = s.nclosed + 1]
     [] k = "openfail" ->
          IF s.open THEN Fail(M, p, "open failure while the stream is open")
-         ELSE [M EXCEPT !.ps[p].acc = FALSE, !.ps[p].ownopen = FALSE, !.ps[p].nans = s.nans + 1, !.ps[p].want = FALSE]
+         \* with an own open outstanding the failure is taken as its answer (an open that arrives while an
+         \* inbound substream is under validation is refused at once); the consent given by an Accept stays
+         ELSE [M EXCEPT !.ps[p].acc = IF s.ownopen THEN s.acc ELSE FALSE, !.ps[p].ownopen = FALSE, !.ps[p].nans = s.nans + 1, !.ps[p].want = FALSE]
     [] k = "recv" ->
          IF ~s.open THEN Fail(M, p, "notification received outside an open stream") ELSE M
     [] OTHER -> M
